@@ -194,6 +194,37 @@ func (s *c19State) battery(r *gen.R, exhaustiveSub int, mine []string) {
 			}
 		}
 	}
+	// whatever a bare style selects, the same style behind a texttable section selects too - also when the prefixed
+	// string happens to be a registered name of its own (an application may register "texttable.utf8-light.wide")
+	for k := 0; k < 6 && !s.bad; k++ {
+		base := gen.Pick(r, list)
+		if len(mine) > 0 && r.Bool() {
+			base = gen.Pick(r, mine)
+		}
+		low := strings.ToLower(base)
+		if strings.HasPrefix(low, "texttable.") && strings.Count(base, ".") >= 2 {
+			base = base[len("texttable."):] // a registered name of the form texttable.X.Y: compare the bare X.Y with it
+		}
+		if first := strings.ToLower(strings.SplitN(base, ".", 2)[0]); first == "" || c19IsSub(first) {
+			continue
+		}
+		style := base
+		if r.Bool() {
+			style = base + "." + r.Word()
+		}
+		out, err, _ := renderStyle(style)
+		if err != nil {
+			continue
+		}
+		for _, pre := range []string{"texttable.", "TextTable."} {
+			out2, err2, _ := renderStyle(pre + style)
+			s.c.Rec.Count("texttable_prefix_equivalences_checked", 1)
+			if err2 != nil || out2 != out {
+				s.viol("texttable-prefix-differs:dotted-style", fmt.Sprintf("auto.New(%q) renders %q, but auto.New(%q) renders %q (err %v)", style, out, pre+style, out2, err2))
+				return
+			}
+		}
+	}
 	// plain 'texttable' is the default decoration
 	for _, st := range []string{"texttable", "TextTable", "TEXTTABLE"} {
 		s.checkSubVariant("texttable", st)
@@ -335,7 +366,10 @@ func minInt(a, b int) int {
 }
 
 func c19Name(r *gen.R, hist int) string {
-	switch r.Intn(7) {
+	switch r.Intn(8) {
+	case 7:
+		// a name of its own that reads like a prefixed style: texttable.<a registered name>.<word>
+		return gen.Pick(r, []string{"texttable.", "texttable.", "TextTable."}) + gen.Pick(r, decoration.RegisteredDecorationNames()) + "." + r.Word()
 	case 6:
 		return c19Derived(r)
 	case 5:
